@@ -13,6 +13,7 @@ package main
 import (
 	"encoding/hex"
 	"encoding/json"
+	"errors"
 	"fmt"
 	"hash/fnv"
 	"math"
@@ -53,6 +54,9 @@ func (c *checker) viol(class, format string, a ...any) {
 }
 
 func (c *checker) count(k string) { c.res.Counters[k]++ }
+
+// harnessClass marks a record that is not a verdict (the parent turns it into exit 2).
+const harnessClass = "HARNESS-ERROR"
 
 func shortHash(s string) string {
 	h := fnv.New64a()
@@ -777,7 +781,12 @@ func (c *checker) checkReadBack(st *stored, exps []*expect) int {
 		}
 		spans, queries, err := readBack(st, hx(tid))
 		if err != nil {
-			c.viol(p+"_readback_query_failed", "trace %s: %v (queries %q)", hx(tid), err, queries)
+			if errors.Is(err, errHarness) || strings.Contains(err.Error(), errHarness.Error()+":") {
+				// the database stand-in could not evaluate the reader's statement: machinery failure, not a verdict
+				c.viol(harnessClass, "trace %s: %v", hx(tid), err)
+			} else {
+				c.viol(p+"_readback_query_failed", "trace %s: %v (queries %q)", hx(tid), err, queries)
+			}
 			continue
 		}
 		total += len(spans)
